@@ -44,6 +44,8 @@ def gen_class(rng, pkg, name, others):
         members.append(J.Field(J.T("String"), ["svc"], [J.Annotation("Autowired"), "private"]))
     for i in range(rng.randint(0, 5)):
         mname = rng.choice(["list", "get", "create", "update", "remove", "helper", "toDto"]) + str(i)
+        if i and rng.random() < 0.25:
+            mname = rng.choice(["search", "find"])          # overloaded handlers: one method name, several mappings
         nparams = rng.randint(0, 3)
         params, body = [], ""
         for j in range(nparams):
